@@ -826,6 +826,9 @@ def run(ctx):
     if e:
         ctx.sample({"stage": "C", "deser": {"cls": e["cls"], "s": bytes(e["s"]).decode("ascii", "replace"), "accepted": e["acc"],
                                             "verdict": verdicts[e["id"]]}})
+    # extension beyond the listed property (never a VIOLATION): the HD wallet objects' life cycle, spec/HDWallet.tla
+    from . import ext_hd
+    ext_hd.stage(ctx)
 
 
 def replay(ctx, path):
